@@ -13,10 +13,11 @@
                                the sub-codecs and the meaning of the oracle, as before
    TIED to the code on every run: write_lp = the bytes of mpq_QSwrite_prob (whole files, >= 300 per run);
    read_lp_res = mpq_QSget_prob (C10: rendered, mutated and library-written files, accepted and rejected).
-   NOT PROVED: the name repair fix_names (the theorem starts from valid names; the check applies the renames the
-   writer announces), the byte level below lines (line reader chunks of 131069 bytes, .gz/.bz2), and that the
+     C08_fix_names_ok          the name repair (fix_names / ILLsymboltab_uname): repaired names are valid, not reserved, distinct
+   NOT PROVED: that the other parts of wf_lp survive the renaming (the two theorems are composed per instance: the check
+   evaluates wf_lpb on the repaired problem), the byte level below lines (line reader chunks of 131069 bytes, .gz/.bz2), and that the
    fuel of the reader model always suffices (it does on every written file by the theorem). *)
-From QSX Require Import LP.User IO.Num IO.NumSound IO.Bounds IO.Equiv IO.LpWrite IO.LpRead IO.LpTok IO.LpExpr IO.LpRows IO.LpBounds IO.LpFinish IO.LpRoundtrip.
+From QSX Require Import LP.User IO.Num IO.NumSound IO.Bounds IO.Equiv IO.LpWrite IO.LpRead IO.LpTok IO.LpExpr IO.LpRows IO.LpBounds IO.LpFinish IO.LpRoundtrip IO.LpNames.
 From Coq Require Import List QArith.
 Import ListNotations.
 Local Open Scope Q_scope.
@@ -92,6 +93,15 @@ Theorem C08_bounds_reread :
   let r := decode_bounds M (map (rd_stmt M) (encode_bounds M lo up isint)) isint in fst r == lo /\ snd r == up.
 Proof. exact decode_rd. Qed.
 Print Assumptions C08_bounds_reread.
+
+(* the name repair of the writer (fix_names): whatever names a symbol table holds, the repaired names are valid LP names,
+   none is inf / infinity / free, and they are pairwise different - the name part of wf_lp *)
+Theorem C08_fix_names_ok :
+  forall pref, prefix_ok [pref] -> forall names, NoDup names ->
+  NoDup (fix_names pref names) /\ Forall (good) (fix_names pref names) /\
+  List.length (fix_names pref names) = List.length names.
+Proof. exact fix_names_ok. Qed.
+Print Assumptions C08_fix_names_ok.
 
 (* the precondition as an executable test (evaluated by checks/C08.py on every generated problem) *)
 Theorem C08_wf_test_sound : forall M P, wf_lpb M P = true -> wf_lp M P.
